@@ -1233,6 +1233,11 @@ where
     }
 
     fn visit_mut_stmts(&mut self, stmts: &mut Vec<Stmt>) {
+        // declarations still pending from the enclosing scope must not be drained here
+        let outer_consts = mem::take(&mut self.injecting_consts);
+        let outer_vars = mem::take(&mut self.injecting_vars);
+        let outer_slot_counter = mem::replace(&mut self.slot_counter, 1);
+
         stmts.visit_mut_children_with(self);
 
         if !self.injecting_consts.is_empty() {
@@ -1259,9 +1264,18 @@ where
             );
             self.slot_counter = 1;
         }
+
+        self.injecting_consts = outer_consts;
+        self.injecting_vars = outer_vars;
+        self.slot_counter = outer_slot_counter;
     }
 
     fn visit_mut_arrow_expr(&mut self, arrow_expr: &mut ArrowExpr) {
+        // declarations still pending from the enclosing scope must not be drained here
+        let outer_consts = mem::take(&mut self.injecting_consts);
+        let outer_vars = mem::take(&mut self.injecting_vars);
+        let outer_slot_counter = mem::replace(&mut self.slot_counter, 1);
+
         arrow_expr.visit_mut_children_with(self);
 
         if !self.injecting_consts.is_empty() || !self.injecting_vars.is_empty() {
@@ -1299,6 +1313,10 @@ where
                 }));
             }
         }
+
+        self.injecting_consts.splice(0..0, outer_consts);
+        self.injecting_vars.splice(0..0, outer_vars);
+        self.slot_counter = outer_slot_counter;
     }
 
     fn visit_mut_expr(&mut self, expr: &mut Expr) {
